@@ -233,6 +233,10 @@ def _files(ctx, case, nc):
     rng = random.Random(case["seed"])
     opts = opts_for(case["salt"], rng)
     lines_ = [hostile_line(rng) for _ in range(30)]
+    if rng.random() < 0.5:
+        # still a text file, whatever its first characters happen to be
+        lines_.insert(0, rng.choice(["PKI trustpoint CA-1", "PK", "BZh91AY&SY looks like bzip2", "%PDF-1.4 not really", "MZ", "GIF89a", "\x7fELF",
+                                     "#!/bin/sh", "<?xml version=\"1.0\"?>", "\ufeff! saved with a BOM", "Rar!", "7z", "\x00", "\x1f"]))
     text = "".join(l.replace("\r", "") + "\n" for l in lines_)
     with tempfile.TemporaryDirectory(dir=os.path.join(load.VERIF, ".work")) as d:
         src, dst = os.path.join(d, "in.cfg"), os.path.join(d, "out.cfg")
